@@ -12,6 +12,11 @@ B: request histories against an independent array model on the real simulator ob
 import itertools
 import random
 
+import z3
+
+from pyvc.spec import Spec
+from pyvc.vals import IntV, SeqV, IntSeq
+from pyvc.pure import fresh, to_int
 from . import attribute_common as AC
 from . import logix_common as LC
 
@@ -36,11 +41,58 @@ C03_LABELS = ('a-read-never-changes-the-tag', 'success-returns-exactly-the-addre
               'unknown-tag: unchanged', 'reply-bit: the reply service is the request service | 0x80')
 
 
+LOW_ = z3.Function('LOW', z3.IntSort(), z3.IntSort())
+
+
+def low_spec(c):
+    """ISO-8859-1 lower-casing of one code point, from the character table (A-Z, and 0xC0-0xDE except 0xD7)"""
+    return z3.If(z3.Or(z3.And(c >= 65, c <= 90), z3.And(c >= 0xC0, c <= 0xDE, c != 0xD7)), c + 32, c)
+
+
+def str_lower_model(eng, recv, st, n):
+    """T2: str.lower() is length preserving and maps code point c to LOW(c) on ISO-8859-1 text"""
+    r = fresh('lower', IntSeq)
+    j = fresh('lj')
+    s = st.clone()
+    s.pc.append(z3.Length(r) == z3.Length(recv.t))
+    s.pc.append(z3.ForAll([j], z3.Implies(z3.And(0 <= j, j < z3.Length(r)), r[j] == low_spec(recv.t[j]))))
+    yield s, SeqV(r, 'str')
+
+
+def canonicalize_spec():
+    return Spec('canonicalize_tag', ("server/enip/device.py", "canonicalize_tag"),
+                params={'tag': 'Str'},
+                requires='forall(0, len(tag), lambda j: 0 <= tag[j] < 256)',
+                ensures=[('same-length', 'len(result) == len(tag)'),
+                         ('case-insensitive-key: only upper-case ISO-8859-1 letters are folded, every other symbol is kept',
+                          'forall(0, len(tag), lambda j: result[j] == low(tag[j]))')],
+                raises={}, modifies=[],
+                hints=dict(str_lower=str_lower_model, funcs={'low': lambda pe, c: IntV(low_spec(to_int(c)))}),
+                replay=replay_canonicalize,
+                note='the symbol table key of a tag; two names denote the same tag iff they are equal after ISO-8859-1 case folding')
+
+
+def replay_canonicalize(model, obligation):
+    from cpppo.server.enip import device
+    names = ['Tag', 'TAG_1', u'Ma\xdf', 'MASS', u'\xc9t\xe9', u'\xe9T\xc9', u'\xd7x', u'\xf7x', u'stra\xdfe', 'STRASSE']
+    ref = lambda s: ''.join(chr(ord(c) + 32) if ('A' <= c <= 'Z' or (0xC0 <= ord(c) <= 0xDE and ord(c) != 0xD7)) else c for c in s)
+    for nm in names:
+        try:
+            got = device.canonicalize_tag(nm)
+        except Exception as e:
+            got = 'raised %s' % type(e).__name__
+        if got != ref(nm):
+            return dict(confirmed=True, function='cpppo.server.enip.device.canonicalize_tag', input=nm, observed=repr(got), required=repr(ref(nm)))
+    return dict(confirmed=False)
+
+
 def contracts(repo):
     items = AC.specs('vector') + AC.specs('scalar')
+    items += [LC.reply_elements_spec(refuses=True, accepts=True, ctx=c) for c in ('read_tag', 'read_frag', 'write_tag', 'write_frag')]
     for sp in LC.request_specs():
         sp.ensures = [(l, t) for l, t in sp.ensures if l in C03_LABELS]
         items.append(sp)
+    items.append(canonicalize_spec())
     return items
 
 
@@ -163,9 +215,51 @@ def bounded(tier, seed):
                 if len(violations) >= 5:
                     break
                 model = dict((k, list(v)) for k, v in actual.items())
+    # symbol table: k auto-allocated tags keep k distinct attributes (no aliasing), names are case-insensitive
+    # in ISO-8859-1 and otherwise distinct
+    for k in (1, 2, 9, 10, 11, 12, 15) if tier == 'quick' else range(1, 40):
+        if len(violations) >= 5:
+            break
+        cfg = dict(('TAG_%d' % i, ('INT' if i % 2 else 'DINT', 3)) for i in range(k))
+        lx = sim.fresh(cfg)
+        for i in range(k):
+            sim.write_tag(lx, 'TAG_%d' % i, 0, 3, CODE['INT' if i % 2 else 'DINT'], [100 * i + j for j in range(3)])
+        for i in range(k):
+            ev += 1
+            d = sim.read_tag(lx, 'tag_%d' % i, 0, 3)
+            distinct.add(('alloc', k, i))
+            if d.status != 0 or list(d.read_tag.data) != [100 * i + j for j in range(3)] or d.read_tag.type != CODE['INT' if i % 2 else 'DINT']:
+                violations.append(dict(key='%d auto-allocated tags: read TAG_%d' % (k, i), observed='status %r data %r type %r' % (
+                    d.status, d.get('read_tag.data'), d.get('read_tag.type')), required='the values written to TAG_%d and its own type' % i))
+                break
+    alphabet = [u'a', u'A', u's', u'S', u'\xdf', u'\xe9', u'\xc9', u'\xd7', u'\xf7', u'\xff']
+    fold = lambda s: ''.join(chr(ord(c) + 32) if ('A' <= c <= 'Z' or (0xC0 <= ord(c) <= 0xDE and ord(c) != 0xD7)) else c for c in s)
+    names = [a + b for a in alphabet for b in alphabet] + [u'Ma\xdf', u'MASS', u'mass', u'stra\xdfe', u'STRASSE']
+    special = names[-5:]
+    names = names[:-5]
+    rng.shuffle(names)
+    names = names[:40 if tier == 'quick' else len(names)] + special
+    groups = {}
+    for nm in names:
+        groups.setdefault(fold(nm), []).append(nm)
+    reps = sorted(groups)
+    cfg = dict((groups[g][0], ('INT', 2)) for g in reps)
+    lx = sim.fresh(cfg)
+    for gi, g in enumerate(reps):
+        sim.write_tag(lx, groups[g][0], 0, 2, CODE['INT'], [gi, gi + 1000])
+    for gi, g in enumerate(reps):
+        for nm in groups[g]:
+            ev += 1
+            d = sim.read_tag(lx, nm, 0, 2)
+            distinct.add(('name', nm))
+            if d.status != 0 or list(d.read_tag.data) != [gi, gi + 1000]:
+                if len(violations) < 8:
+                    violations.append(dict(key='tag name %r (same tag as %r)' % (nm, groups[g][0]),
+                                           observed='status %r data %r' % (d.status, d.get('read_tag.data')),
+                                           required='names equal up to ISO-8859-1 case denote one tag, all others are distinct tags'))
     return dict(evaluations=ev, distinct_nontrivial=len(distinct),
                 rule='seeded request histories (%d steps per type pair) over 4 tags: two bound to @0x93/3/1 and @0x93/3/2 (one instance), a scalar '
                      'and a Message-Router allocated array; all 11 numeric element types; Read/Write Tag by symbolic name (also lower-case) and by '
                      'numeric address, Read/Write Tag Fragmented, Get/Set Attribute Single; after each request every tag is compared with an '
-                     'independent array model; distinct = distinct (operation, type, index, count, tag)' % steps,
+                     'independent array model; plus k = 1..15 Message-Router allocated tags read back individually, and tag names over an ISO-8859-1 alphabet grouped by case folding; distinct = distinct (operation, type, index, count, tag) / (k, i) / name' % steps,
                 exhaustive=False, samples=samples, violations=violations[:20], seed=seed)
